@@ -8,7 +8,7 @@ PROFILE = {'name': 'c15', 'max_clients': 5, 'hostile_masks': False, 'mp_rate': 0
 def run(ctx):
     res = Result("C15")
     results, cover, shapes = common.e1_check(
-        ctx, res, PROFILE, n_quick=128, n_thorough=640, steps=150, steps_thorough=300,
+        ctx, res, PROFILE, n_quick=128, n_thorough=2560, steps=150, steps_thorough=300,
         relevant=lambda t: t[0] in ('nick',),
         nontrivial_rule='users built up to rich states (several channels with different ranks, +i +w, OPER, away, invitations), then NICK to {free, own current, taken, previously used}, chains a->b->a; snapshot compares every nick-keyed container (members, five rank sets, wallops audience, invitations, WHOWAS); distinct = (outcome, #channels, user modes, away?, invitations pending?, target nick used before?)')
     n = sum(c for s, c in shapes.items() if s.startswith("nick:"))
